@@ -341,35 +341,52 @@ def check_binary_pair(ck, repo):
 WRITE_METHODS = ("write_text", "write_bytes", "to_json", "to_pickle", "savetxt", "write", "touch", "rename", "replace", "unlink", "rmdir")
 
 
-def check_side_files(ck, repo):
-    PM = repo.find_class("ProcessModel")
-    sv, ld = PM.methods["save"], PM.methods["load"]
-    gen = PM.methods.get("_generate_process_path")
-    ck.ob("W6", "ProcessModel", "process directory generator exists", PM.module.relpath, gen is not None)
-    if gen is None:
-        return
-    ck.analysed_function(gen)
-    # W6a: the generator returns a directory it created itself with exist_ok=False
-    outs = analyse(repo, gen, io_config())
+def _mkdirs(o):
+    """receiver description -> list of exist_ok values (True / False / None for the default) of the mkdir calls on this path"""
+    out = {}
+    for e in o.events:
+        if e.kind == "opaque-call" and e.data[0].endswith(".mkdir"):
+            x = e.data[2].get("exist_ok")
+            v = x.b if isinstance(x, BoolV) else (None if x is None else True)
+            out.setdefault(e.data[0][:-6], []).append(v)
+    return out
+
+
+def _fresh(values):
+    """created here and never accepted if it already existed"""
+    return bool(values) and all(v is False or v is None for v in values)
+
+
+_FRESH_CACHE = {}
+
+
+def returns_fresh_directory(ck, repo, g: FuncInfo):
+    """g returns, on every path, a directory it created itself with exist_ok=False"""
+    key = g.module.name + ":" + g.qualname
+    if key in _FRESH_CACHE:
+        return _FRESH_CACHE[key]
+    ck.analysed_function(g)
+    outs = analyse(repo, g, io_config())
     ck.analysed["paths"] += len(outs)
     rets = returns(outs)
     ok = bool(rets)
     found = []
     for o in rets:
         rd = o.value.desc if isinstance(o.value, Opaque) else None
-        mk = [e for e in o.events if e.kind == "opaque-call" and e.data[0].endswith(".mkdir") and e.data[0][:-6] == rd]
-        good = False
-        for e in mk:
-            x = e.data[2].get("exist_ok")
-            good = good or (isinstance(x, BoolV) and x.b is False) or x is None
-            found.append("%s(exist_ok=%s)" % (e.data[0][-40:], getattr(x, "b", "default")))
-        later = [e for e in o.events if e.kind == "opaque-call" and e.data[0].endswith(".mkdir") and e.data[0][:-6] == rd
-                 and isinstance(e.data[2].get("exist_ok"), BoolV) and e.data[2]["exist_ok"].b is not False]
-        ok = ok and good and not later
-    ck.ob("W6", gen.qualname, "the returned directory is created with exist_ok=False (an existing directory is never reused)", gen.loc(), ok,
-          found="; ".join(found)[:200])
-    # W6b / W4: every write of save goes into the generated directory; side files agree with the flag
+        mk = _mkdirs(o).get(rd, [])
+        found.append("mkdir(exist_ok=%s)" % mk)
+        ok = ok and _fresh(mk)
+    _FRESH_CACHE[key] = (ok, "; ".join(found)[:200])
+    return _FRESH_CACHE[key]
+
+
+def check_side_files(ck, repo):
+    PM = repo.find_class("ProcessModel")
+    sv, ld = PM.methods["save"], PM.methods["load"]
+    # W6 / W4: every write of save goes into a directory created with exist_ok=False on this very call (by save itself or by a
+    # helper whose result it is, whatever the helper is called); side files agree with the flag
     nwrites = 0
+    ngen = 0
     for safe in (True, False):
         label = "is_safe=%s" % safe
         outs = analyse(repo, sv, io_config(), setup=lambda ev, s=safe: {"is_safe": BoolV(s)}, max_paths=2048)
@@ -377,12 +394,20 @@ def check_side_files(ck, repo):
         rets = returns(outs)
         ck.ob("W4", sv.qualname, "save completes [%s]" % label, sv.loc(), bool(rets))
         for o in rets:
-            gens = [c for c in o.calls if c.callee.qualname == gen.qualname and not c.inlined]
-            ck.ob("W6", sv.qualname, "save obtains its directory from the generator exactly once", sv.loc(), len(gens) == 1, found="%d calls" % len(gens))
-            if len(gens) != 1:
-                continue
-            gd = gens[0].result.desc if isinstance(gens[0].result, Opaque) else "?"
-            prefix = "(" + gd + " / "
+            fresh = {}
+            for c in o.calls:
+                if not c.inlined and isinstance(c.result, Opaque):
+                    okg, fnd = returns_fresh_directory(ck, repo, c.callee)
+                    if okg:
+                        fresh[c.result.desc] = c.callee.qualname
+                    else:
+                        fresh.setdefault("!" + c.result.desc, "%s: %s" % (c.callee.qualname, fnd))
+            for rd, vals in _mkdirs(o).items():
+                if _fresh(vals):
+                    fresh[rd] = "mkdir in save"
+            good = {d for d in fresh if not d.startswith("!")}
+            ngen += len(good)
+            prefixes = ["(" + d + " / " for d in good]
             me = o.env.get("self")
             fits = me.fields.get("permeance_fits") if isinstance(me, ObjV) else None
             writes = []   # (kind, where, target description, receiver, extra)
@@ -405,9 +430,14 @@ def check_side_files(ck, repo):
                     p = c.bound["path"]
                     writes.append((q, c.where, p.desc if isinstance(p, Opaque) else key_str(val_key(p)), c.bound.get("self")))
             nwrites += len(writes)
+            used = set()
             for kind, where, target, recv in writes:
-                ck.ob("W6", sv.qualname, "write %s goes into the freshly created process directory [%s]" % (kind, label), where,
-                      target.lstrip("(").startswith(prefix.lstrip("(")) or target.startswith(prefix), found=target[:160])
+                hit = [p for p in prefixes if target.startswith(p) or target.lstrip("(").startswith(p.lstrip("("))]
+                used.update(hit)
+                ck.ob("W6", sv.qualname, "write %s goes into the freshly created process directory [%s]" % (kind, label), where, bool(hit),
+                      "the target is not below a directory created with exist_ok=False during this call (%s)"
+                      % "; ".join(v for k, v in fresh.items() if k.startswith("!"))[:200], found=target[:160])
+            ck.ob("W6", sv.qualname, "all files of one save go into one directory [%s]" % label, sv.loc(), len(used) <= 1, found=str(sorted(used))[:200])
             # fits
             fit_writes = [w for w in writes if w[0].startswith("PervaporationFunction.")]
             want = "PervaporationFunction.safe_save" if safe else "PervaporationFunction.save"
@@ -443,6 +473,7 @@ def check_side_files(ck, repo):
             ck.ob("W4", sv.qualname, "initial conditions are written to initial_conditions.ic with the %s variant [%s]" % ("JSON" if safe else "binary", label),
                   sv.loc(), okic, found="; ".join("%s -> %s" % (w[0], w[2][-60:]) for w in ic))
     ck.floor("write calls in ProcessModel.save", nwrites, 8)
+    ck.floor("fresh directories seen by ProcessModel.save", ngen, 2)
 
 
 def check_side_file_loading(ck, ld, results):
